@@ -204,6 +204,8 @@ class Effects:
             for a in self.aliases(base):
                 out.append((a, "subscript store into %s" % show(base)[:60]))
         elif ev.kind == "aug":
+            if len(ev.data) > 4 and ev.data[4] == "rebind":
+                return out            # x = x + y binds a new object to the name: nothing is written in place
             cur = ev.data[0]
             if self.is_scalar(cur):
                 return out
